@@ -213,6 +213,11 @@ def cmd_check(out, jobs):
     chf = os.path.join(out, "checks.json")
     ch = json.load(open(chf)) if os.path.exists(chf) else {}
     todo = [ms[int(i)] for i, r in res.items() if r == "survived" and i not in ch]
+    # MS_FILES=a.py,b.py restricts the sweep to survivors in those files; MS_CHECKS=C04,C12 to those checks (in the mapped order)
+    only_files = [f for f in os.environ.get("MS_FILES", "").split(",") if f]
+    only_checks = [c for c in os.environ.get("MS_CHECKS", "").split(",") if c]
+    if only_files:
+        todo = [m for m in todo if any(m["file"].endswith(f) for f in only_files)]
 
     def one(m):
         wt = mk_wt()
@@ -223,7 +228,7 @@ def cmd_check(out, jobs):
             if a.returncode:
                 return m["id"], {"-": [-7, 0]}
             r = {}
-            for c in m["checks"]:
+            for c in [c for c in m["checks"] if not only_checks or c in only_checks]:
                 env = dict(os.environ, VERIF_REPO=wt, VERIF_OUT=od, TMPDIR=od)
                 try:
                     p = subprocess.run(["/verif/run.sh", c, "quick"], cwd="/verif", env=env, capture_output=True, text=True, timeout=1200)
